@@ -607,12 +607,17 @@ fn exec_c09(sc: &Scenario, mode_run: bool, jseed: u64) -> Out {
     jitter(&mut rng);
     let mut acked = vec![false; ne];
     let mut asked = vec![false; ne];
+    // an acknowledgement that did not arrive in time (not: an issuer that is gone): the sequencing the
+    // scenario asks for cannot be relied on, the oracle then only uses what holds without it
+    let mut unordered = false;
     for i in 0..ne {
         if i > 0 && entries[i].seq {
             for j in 0..i {
                 if !asked[j] {
                     asked[j] = true;
-                    acked[j] = ack_rx[j].recv_timeout(WATCHDOG).is_ok();
+                    let r = ack_rx[j].recv_timeout(WATCHDOG);
+                    acked[j] = r.is_ok();
+                    unordered |= r == Err(mpsc::RecvTimeoutError::Timeout);
                 }
             }
         } else if i > 0 {
@@ -696,7 +701,8 @@ fn exec_c09(sc: &Scenario, mode_run: bool, jseed: u64) -> Out {
                 letters.push("-");
                 continue;
             };
-            if early_ret == Some(false) {
+            // (created on an arbiter's thread, the system — stopped by a racing entry — may get to it first)
+            if early_ret == Some(false) && matches!(e.origin, Origin::SysPre | Origin::SysTask) {
                 late_t3.push("stop() on a freshly created arbiter returned false".into());
             }
             let started = Arc::new(AtomicBool::new(false));
@@ -717,7 +723,7 @@ fn exec_c09(sc: &Scenario, mode_run: bool, jseed: u64) -> Out {
             } else if let (Origin::SysTask, Some(c), true) = (&e.origin, later_stop, winner.map(|w| Some(w) == e.first_stop().map(|f| (b, f.0))).unwrap_or(false)) {
                 Some(format!("its Register and the later Exit({c}) were queued in the same poll as the Exit that delivered the code"))
             } else if let Some((j, q)) = winner {
-                if (j == b && p < q) || entry_hb(&entries, b, j) {
+                if (j == b && p < q) || (!unordered && entry_hb(&entries, b, j)) {
                     Some("Arbiter::new had returned before the stop that delivered the code was issued".to_string())
                 } else {
                     None
@@ -751,7 +757,7 @@ fn exec_c09(sc: &Scenario, mode_run: bool, jseed: u64) -> Out {
     let allowed: Vec<i32> = entries
         .iter()
         .enumerate()
-        .filter(|(i, _)| !(0..*i).any(|j| entries[j].first_stop().is_some() && entry_hb(&entries, j, *i)))
+        .filter(|(i, _)| unordered || !(0..*i).any(|j| entries[j].first_stop().is_some() && entry_hb(&entries, j, *i)))
         .filter_map(|(_, e)| e.first_stop().map(|f| f.1))
         .collect();
     let c1 = allowed.first().copied().unwrap_or(0);
@@ -759,7 +765,9 @@ fn exec_c09(sc: &Scenario, mode_run: bool, jseed: u64) -> Out {
         Err(_) => t3.push(("C09".into(), format!("run_with_code did not return within {WATCHDOG:?} after stop_with_code"))),
         Ok(_) => match code_s.parse::<i32>() {
             Ok(c) => {
-                if !allowed.contains(&c) {
+                if !allowed.contains(&c) && mode_run && res_s == "ok" {
+                    t3.push(("C09".into(), format!("run() returned Ok(()), but the first stop issued had the non-zero code {c1} (allowed {allowed:?})")));
+                } else if !allowed.contains(&c) {
                     t3.push(("C09".into(), format!("returned code {c}, but the first stop issued had code {c1} (allowed {allowed:?})")));
                 }
                 if mode_run && (res_s == "ok") != (c == 0) {
@@ -975,7 +983,7 @@ fn do_spawn(h: &Sender10, kind: TaskKind, task: usize, log: Arc<TaskLog>) -> boo
                     }
                 };
                 loop {
-                    match rx.recv_timeout(Duration::from_secs(3)) {
+                    match rx.recv_timeout(Duration::from_secs(6)) {
                         Ok(GateMsg::Spawn { arb, cur, kind, task }) => {
                             let h = log.handle_for(arb, cur);
                             ack(do_spawn(&Sender10::Handle(&h), kind, task, log.clone()));
